@@ -393,3 +393,41 @@ def preceding_exit_guards(node) -> list:
             if isinstance(s, ast.If) and terminal(s.body) is not None and not s.orelse:
                 out.append((s.test, False))
     return out
+
+
+def _block_of(stmt):
+    """(list holding ``stmt``, index) in its parent, or (None, None)."""
+    p = parent(stmt)
+    if p is None:
+        return None, None
+    for f in ("body", "orelse", "finalbody", "handlers"):
+        blk = getattr(p, f, None)
+        if isinstance(blk, list):
+            for i, s in enumerate(blk):
+                if s is stmt:
+                    return blk, i
+    return None, None
+
+
+def reaching_value(node, name: str):
+    """The value expression of the assignment to local ``name`` that reaches ``node`` by straight-line scanning:
+    previous siblings in the same block, then the blocks enclosing it.  None when a compound statement in between
+    assigns the name (several candidates), when no assignment is found, or on loop back edges."""
+    st = node
+    while st is not None and not isinstance(st, ast.stmt):
+        st = parent(st)
+    while st is not None and not isinstance(st, FUNC_NODES):
+        blk, i = _block_of(st)
+        if blk is None:
+            return None
+        for prev in reversed(blk[:i]):
+            if isinstance(prev, ast.Assign) and len(prev.targets) == 1 and isinstance(prev.targets[0], ast.Name) and prev.targets[0].id == name:
+                return prev.value
+            if isinstance(prev, ast.AnnAssign) and isinstance(prev.target, ast.Name) and prev.target.id == name and prev.value is not None:
+                return prev.value
+            if any(isinstance(x, ast.Name) and x.id == name and isinstance(x.ctx, ast.Store) for x in ast.walk(prev)):
+                return None
+        st = parent(st)
+        if isinstance(st, (ast.For, ast.While)) and any(isinstance(x, ast.Name) and x.id == name and isinstance(x.ctx, ast.Store) for x in ast.walk(st)):
+            return None
+    return None
